@@ -102,6 +102,7 @@ class Summary:
         self.final_mem = None
         self.loops = {}
         self.notes = []
+        self.exits = []
         self.fn = None
         self.env = {}
         self.guards = {}
@@ -480,9 +481,31 @@ class Interp:
             return r1 is not None and r1 == r2
         return False
 
-    def region_of(self, addr):
+    def region_of(self, addr, depth=0):
         r, _ = self.root_of(addr)
         if r is None:
+            # γ(c, p, q) + off with differently rooted branches: either region
+            if depth < 4:
+                for a, k in addr.t:
+                    if k == 1 and a[0] == "gamma":
+                        rest = addr - atom(a)
+                        r1 = self.region_of(a[2] + rest, depth + 1)
+                        r2 = self.region_of(a[3] + rest, depth + 1)
+                        # a null alternative points nowhere (an access through it is undefined anyway)
+                        if a[2].is_const() and a[2].c == 0 and r2 != ("?",):
+                            return r2
+                        if a[3].is_const() and a[3].c == 0 and r1 != ("?",):
+                            return r1
+                        if r1 != ("?",) and r2 != ("?",):
+                            return r1 if r1 == r2 else ("ALT", r1, r2)
+                    if k == 1 and a[0] == "iv" and a in self.iv_init:
+                        r1 = self.region_of(addr - atom(a) + self.iv_init[a], depth + 1)
+                        if r1 != ("?",):
+                            return r1
+                    if k == 1 and a[0] == "alignup":
+                        r1 = self.region_of(addr - atom(a) + a[1], depth + 1)
+                        if r1 != ("?",):
+                            return r1
             return ("?",)
         if r[0] == "arg":
             return ("OBJ", r[1])
@@ -499,6 +522,10 @@ class Interp:
 
     @staticmethod
     def regions_disjoint(r1, r2):
+        if r1[0] == "ALT":
+            return Interp.regions_disjoint(r1[1], r2) and Interp.regions_disjoint(r1[2], r2)
+        if r2[0] == "ALT":
+            return Interp.regions_disjoint(r1, r2[1]) and Interp.regions_disjoint(r1, r2[2])
         if r1 == ("?",) or r2 == ("?",):
             # an undetermined address is assumed not to point into argument objects' own storage or
             # allocas only when the other side is LOCAL
@@ -635,10 +662,10 @@ class Interp:
                 inside = self.load(snap, src + dd, size, ty, inst, depth + 1)
                 if inr == TRUE:
                     return inside
-                m2 = Mem(mem.w, mem.segs, mem.bulk[:bi], mem.havoc, mem.lsegs)
-                under = self.load(m2, addr, size, ty, inst, depth + 1) if inr != FALSE else None
                 if inr == FALSE:
                     continue
+                # not covered by the copy: whatever was there when the copy happened
+                under = self.load(snap, addr, size, ty, inst, depth + 1)
                 return mk_gamma(inr, inside, under)
             return self.unk("load %s after bulk write %s" % (show(addr), tag))
         a = ("mem", addr, size)
@@ -781,6 +808,7 @@ class Interp:
                 self.store(mem, dst + off, w, const(int.from_bytes(bytes([b]) * w, "little")))
                 off += w
             return
+        doomed = []
         for (a2, s2) in list(mem.w.keys()):
             r2 = self.region_of(a2)
             if self.regions_disjoint(reg, r2):
@@ -791,10 +819,15 @@ class Interp:
                 continue
             if d is None and self._nonneg_form(dst - a2 - s2):
                 continue  # the entry lies in front of the written range
-            mem.w[(a2, s2)] = self.unk("clobbered by bulk write %s" % tag)
+            if copy_from is not None:
+                doomed.append((a2, s2))  # answered through the copy record (snapshot below)
+            else:
+                mem.w[(a2, s2)] = self.unk("clobbered by bulk write %s" % tag)
         snap = None
         if copy_from is not None:
             snap = (copy_from, mem.copy())
+            for k in doomed:
+                del mem.w[k]
         mem.bulk = mem.bulk + ((dst, n, reg, tag, snap),)
 
     def join_mem(self, b, preds):
@@ -934,6 +967,14 @@ class Interp:
                 fm = self.join_mem("$exit", rets)
             sm.final_mem = fm
             sm.final = dict(fm.w)
+        # every way out of the function: ret / resume (exception propagates) / unreachable after terminate
+        sm.exits = []
+        for b in self.rpo:
+            if b not in self.out_mem:
+                continue
+            t = f.blocks[b].insts[-1]
+            if t.op in ("ret", "resume", "unreachable"):
+                sm.exits.append((t.op, b, self.guard.get(b, TRUE), self.out_mem[b]))
         sm.interp = self
         return sm
 
@@ -1086,9 +1127,14 @@ class Interp:
             else:
                 # sizes/ids travel through i32<->i64 casts unchanged in the witnesses; keep the
                 # cast visible so that rules comparing terms see it on both sides
-                sa = a.single_atom()
-                if op in ("zext", "sext") and sa is not None and sa[0] == "mem" and sa[2] * 8 == src.bits:
+                if op in ("zext", "sext") and src.bits >= 32:
+                    # allocator identities / counts travelling through int <-> size_t conversions: the
+                    # values are assumed to fit (no wrap-around), so the extension is the identity
+                    res = a
+                elif op in ("zext", "sext") and a.single_atom() is not None and a.single_atom()[0] == "mem" and a.single_atom()[2] * 8 == src.bits:
                     res = a  # a loaded narrow value: identify with its extension
+                elif op == "trunc" and ins.type.bits >= 32:
+                    res = a
                 elif op == "trunc" and ins.type.bits == 1:
                     res = self.from_cond(("bit", a)) if True else None
                 else:
